@@ -282,6 +282,9 @@ package db
 //@   ensures[miss]    docID != "" && docVersionString != "" && !old(CreateRevisionCacheKey(docID, docVersionString, collectionID) in rc.cache) && !create ==> value == nil
 //@   ensures[same]    docID == "" || docVersionString == "" || old(CreateRevisionCacheKey(docID, docVersionString, collectionID) in rc.cache) || !create ==> c16cacheSame(rc) && rc.lruSet == old(rc.lruSet) && c16gaugesSame(rc) && c16statesKept() && istat(rc) == old(istat(rc))
 //@   ensures[created] docID != "" && docVersionString != "" && !old(CreateRevisionCacheKey(docID, docVersionString, collectionID) in rc.cache) && create ==> value != nil && !old(allocated(now(value))) && value.itemKey == CreateRevisionCacheKey(docID, docVersionString, collectionID) && value.bodyBytes == nil && isNilErr(value.err) && ibytes(value) == 0 && (mstate(value) == memStateLoading || mstate(value) == memStateRemoved)
+//@   ensures[added]   forall q revCacheKey :: {q in rc.cache} (q in rc.cache) && !old(q in rc.cache) ==> create && q == CreateRevisionCacheKey(docID, docVersionString, collectionID) && c16val(rc.cache[q]) == value
+//@   ensures[survivors] forall q revCacheKey :: {q in rc.cache} (q in rc.cache) && old(q in rc.cache) ==> rc.cache[q] == old(rc.cache[q])
+//@   ensures[unlink]  c16unlinkOnlyRemoved(rc)
 //@   ensures[bytes]   docID != "" && docVersionString != "" && !old(CreateRevisionCacheKey(docID, docVersionString, collectionID) in rc.cache) && create ==>
 //@                      (c16gaugesSame(rc) && c16statesKeptExcept(value)) ||
 //@                      (exists w *revCacheValue :: {mstate(w)} w != value && old(allocated(w)) && mstate(w) == memStateRemoved && old(w.itemKey in rc.cache) && old(c16val(rc.cache[w.itemKey])) == w && !(w.itemKey in rc.cache) &&
@@ -307,6 +310,7 @@ package db
 //@                      mstate(old(c16val(rc.cache[CreateRevisionCacheKey(docID, versionString, collectionID)]))) == memStateRemoved && c16statesKeptExcept(old(c16val(rc.cache[CreateRevisionCacheKey(docID, versionString, collectionID)]))) &&
 //@                      gauge(rc.memoryController) == old(gauge(rc.memoryController)) - old(acct(c16val(rc.cache[CreateRevisionCacheKey(docID, versionString, collectionID)]))) &&
 //@                      bstat(rc.memoryController) == old(bstat(rc.memoryController)) - old(acct(c16val(rc.cache[CreateRevisionCacheKey(docID, versionString, collectionID)])))
+//@   ensures[only-own] c16onlyRemovedUnlinked(rc)
 //@   ensures[inv-map]  c16map(rc)
 //@   ensures[inv-list] c16list(rc)
 //@   ensures[inv]      c16inv(rc)
@@ -314,6 +318,22 @@ package db
 // After a failed load: the value goes to memStateRemoved, leaves map and list if it is still the cached value of
 // its key, and the item count follows. No byte gauge is touched: the caller (Get) only calls this for a value
 // that is not memStateSized (precondition `unsized`), so nothing was accounted for it.
+// "an entry is only unlinked together with its value": every key that left the map held a value that is now
+// memStateRemoved, no key was added, and every surviving entry is the element it was.
+//@ pred c16noneAdded(rc *LRURevisionCache) bool
+//@   is forall q revCacheKey :: {q in rc.cache} (q in rc.cache) ==> old(q in rc.cache) && rc.cache[q] == old(rc.cache[q])
+//@ pred c16lostAreRemoved(rc *LRURevisionCache) bool
+//@   is forall q revCacheKey :: {q in old(rc.cache)} old(q in rc.cache) && !(q in rc.cache) ==> mstate(old(c16val(rc.cache[q]))) == memStateRemoved
+//@ pred c16onlyRemovedUnlinked(rc *LRURevisionCache) bool
+//@   is c16noneAdded(rc) && c16lostAreRemoved(rc)
+// weaker form for calls that may also insert or replace: an entry that existed either is still the same element, or
+// its value is now memStateRemoved
+//@ pred c16unlinkOnlyRemoved(rc *LRURevisionCache) bool
+//@   is forall q revCacheKey :: {q in rc.cache} {q in old(rc.cache)} old(q in rc.cache) ==> ((q in rc.cache) && rc.cache[q] == old(rc.cache[q])) || mstate(old(c16val(rc.cache[q]))) == memStateRemoved
+// "value is the value cached under its own key" (identity, not just the key)
+//@ pred c16isCached(rc *LRURevisionCache, v *revCacheValue) bool
+//@   is (v.itemKey in rc.cache) && c16val(rc.cache[v.itemKey]) == v
+
 //@ func LRURevisionCache.removeValueForFailedLoad
 //@   requires c16wf(rc) && value != nil && c16map(rc) && c16listX(rc, value) && rc.lruLen >= 0 && len(rc.cache) == rc.lruLen && rc.lruLen <= int(rc.capacity)
 //@   requires[unsized] mstate(value) != memStateSized
@@ -321,6 +341,14 @@ package db
 //@   ensures[state]    mstate(value) == memStateRemoved && acct(value) == old(acct(value))
 //@   ensures[items]    istat(rc) - old(istat(rc)) == len(rc.cache) - old(len(rc.cache))
 //@   ensures[gone]     !((value.itemKey in rc.cache) && c16val(rc.cache[value.itemKey]) == value)
+// identity, not key: if the entry under value.itemKey does not hold THIS value (e.g. the key was re-populated by an
+// Upsert/Put while the load was in flight, or the value was already evicted) nothing of the cache moves ...
+//@   ensures[foreign-kept] !old(c16isCached(rc, value)) ==> c16cacheSame(rc) && rc.lruSet == old(rc.lruSet) && rc.lruLen == old(rc.lruLen) && len(rc.cache) == old(len(rc.cache)) && istat(rc) == old(istat(rc)) && c16gaugesSame(rc) && c16statesKeptExcept(value)
+// ... and if it does, exactly that entry is unlinked, the item count drops by one, and the byte gauges move by the
+// value's accounted size, which is 0 (precondition `unsized`).
+//@   ensures[own-removed]  old(c16isCached(rc, value)) ==> c16cacheMinus(rc, value.itemKey) && rc.lruSet == minus(old(rc.lruSet), single(old(rc.cache[value.itemKey]))) && len(rc.cache) == old(len(rc.cache)) - 1 && istat(rc) == old(istat(rc)) - 1 &&
+//@                           c16gaugesSame(rc) && old(acct(value)) == 0 && c16statesKeptExcept(value)
+//@   ensures[only-own]     c16onlyRemovedUnlinked(rc)
 //@   ensures[others]   forall q revCacheKey :: {q in rc.cache} q != value.itemKey ==> ((q in rc.cache) <==> old(q in rc.cache)) && rc.cache[q] == old(rc.cache[q])
 //@   ensures[inv-map]  c16map(rc)
 //@   ensures[inv-list] c16list(rc)
@@ -334,6 +362,8 @@ package db
 //@   modifies rc.lruSet, rc.lruLen, elems(rc.cache), revCacheValue.memState, rc.cacheNumItems.val
 //@   ensures[empty]    old(rc.lruLen) == 0 ==> result0 == 0 && !result1 && c16cacheSame(rc) && rc.lruSet == old(rc.lruSet) && c16statesKept() && istat(rc) == old(istat(rc))
 //@   ensures[evicted]  old(rc.lruLen) > 0 ==> result1 && value != nil && old(value.itemKey in rc.cache) && old(c16val(rc.cache[value.itemKey])) == value && c16cacheMinus(rc, value.itemKey) && len(rc.cache) == old(len(rc.cache)) - 1
+//@   ensures[exact]    old(rc.lruLen) > 0 ==> rc.lruSet == minus(old(rc.lruSet), single(old(rc.cache[value.itemKey]))) && istat(rc) == old(istat(rc)) - 1
+//@   ensures[only-own] c16onlyRemovedUnlinked(rc)
 //@   ensures[bytes]    old(rc.lruLen) > 0 ==> result0 == old(acct(value)) && mstate(value) == memStateRemoved && c16statesKeptExcept(value)
 //@   ensures[items]    istat(rc) - old(istat(rc)) == len(rc.cache) - old(len(rc.cache))
 //@   ensures[inv-map]  c16map(rc)
@@ -471,6 +501,9 @@ package db
 //@   ensures[bytes]    value != nil ==> c16conserved1(rc, value) || (exists w *revCacheValue :: {mstate(w)} {old(mstate(w))} c16conserved2(rc, value, w))
 //@   ensures[machine]  c16transitions() && c16sizeStable()
 //@   ensures[failed]   value != nil && !isNilErr(result2) ==> acct(value) == 0 && mstate(value) == memStateRemoved && !((value.itemKey in rc.cache) && c16val(rc.cache[value.itemKey]) == value)
+//@   ensures[failed-none-added] value != nil && !isNilErr(result2) ==> c16noneAdded(rc)
+//@   ensures[failed-only-own] value != nil && !isNilErr(result2) ==> c16onlyRemovedUnlinked(rc)     // the clean-up after a failed load unlinks nothing but the value it looked up (or one evicted to make room)
+//@   ensures[unlink]   c16unlinkOnlyRemoved(rc)
 //@   ensures[event]    result1 ==> value != nil && isNilErr(result2) && mstate(value) == memStateSized && acct(value) == ibytes(value) && c16oacct(value) == 0
 //@   ensures[inv-map]  c16map(rc)
 //@   ensures[inv-list] c16list(rc)
@@ -491,6 +524,7 @@ package db
 //@   ensures[replaced] old(cvKey in rc.cache) ==> mstate(old(c16val(rc.cache[cvKey]))) == memStateRemoved && !((cvKey in rc.cache) && c16val(rc.cache[cvKey]) == old(c16val(rc.cache[cvKey])))
 //@   ensures[bytes]    c16conserved1(rc, result1) || (exists w *revCacheValue :: {mstate(w)} {old(mstate(w))} c16conserved2(rc, result1, w))
 //@   ensures[machine]  c16transitions() && c16sizeStable()
+//@   ensures[unlink]   c16unlinkOnlyRemoved(rc)
 //@   ensures[inv-map]  c16map(rc)
 //@   ensures[inv-list] c16list(rc)
 //@   ensures[inv]      c16inv(rc)
@@ -520,6 +554,7 @@ package db
 //@   ensures[machine-t] c16transitions()
 //@   ensures[machine-s] c16sizeStable()
 //@   ensures[bytes]    isNilErr(result) ==> c16conserved1(rc, callres(upsertDocToCache, 1, 1)) || (exists w *revCacheValue :: {mstate(w)} {old(mstate(w))} c16conserved2(rc, callres(upsertDocToCache, 1, 1), w))
+//@   ensures[unlink]   c16unlinkOnlyRemoved(rc)
 //@   ensures[inv-map]  c16map(rc)
 //@   ensures[inv-list] c16list(rc)
 //@   ensures[inv]      c16inv(rc)
@@ -554,6 +589,7 @@ package db
 //@                         callres(getValue, 1, 0).attachments == old(now(callres(getValue, 1, 0)).attachments) && callres(getValue, 1, 0).err == old(now(callres(getValue, 1, 0)).err)
 //@   ensures[items]     istat(rc) - old(istat(rc)) == len(rc.cache) - old(len(rc.cache))
 //@   ensures[machine-t] c16transitions()
+//@   ensures[unlink]   c16unlinkOnlyRemoved(rc)
 //@   ensures[inv-map]   c16map(rc)
 //@   ensures[inv-list]  c16list(rc)
 //@   ensures[inv]       c16inv(rc)
@@ -586,6 +622,8 @@ package db
 //@   ensures[bytes]    called(getValue, 1) ==> c16conserved1(rc, callres(getValue, 1, 0)) || (exists w *revCacheValue :: {mstate(w)} {old(mstate(w))} c16conserved2(rc, callres(getValue, 1, 0), w))
 //@   ensures[machine]  c16transitions() && c16sizeStable()
 //@   ensures[failed]   called(getValue, 1) && !isNilErr(result2) ==> acct(callres(getValue, 1, 0)) == 0 && mstate(callres(getValue, 1, 0)) == memStateRemoved
+//@   ensures[failed-only-own] called(getValue, 1) && !isNilErr(result2) ==> c16onlyRemovedUnlinked(rc)
+//@   ensures[unlink]   c16unlinkOnlyRemoved(rc)
 //@   ensures[inv-map]  c16map(rc)
 //@   ensures[inv-list] c16list(rc)
 //@   ensures[inv]      c16inv(rc)
